@@ -40,6 +40,14 @@
 // its split branch here.  A batch handed out is recorded from the GetNextBatch RESPONSE (what the manager really got),
 // and the drain ends only after a produce on a quiet node handed out nothing (a batch that waits in memory only is
 // still in flight).
+//
+// Pending-limit stream (Cfg.Pend > 0, every generated case with index = 11 mod 12 + one corpus file): the manager runs with
+// MaxPendingHeadersAndData = Pend; items hsub / dsub = the DA layer has accepted the headers / the data up to a height
+// (the manager's own setLastSubmitted{Header,Data}Height — all that the two submission loops do to the producer), each
+// on its own, so that headers are confirmed while data stalls, or the reverse, or both stall.  A produce step that
+// returns nil without a new height, without having asked the sequencer or the executor, is observed as "refused"
+// (model: Model/ReaperLimit.v, result 13).  The oracle is the same: whatever a step takes from the sequencer under
+// back-pressure must still be in the chain after the drain (during which the DA layer accepts everything).
 package c11
 
 import (
@@ -91,6 +99,9 @@ type Cfg struct {
 	// Lim > 0: the size-boundary stream — the pool also holds the big transactions 10..19, sized around Lim bytes
 	// (bigSizes).  The model does not see sizes: a transaction is its pool id.
 	Lim int64 `json:"lim,omitempty"`
+	// Pend > 0: the back-pressure stream — config Node.MaxPendingHeadersAndData (0 = unlimited, the default); the model
+	// is Model/ReaperLimit.v (items hsub / dsub: the DA layer has accepted headers / data).
+	Pend int `json:"pend,omitempty"`
 }
 
 // bigSizes: pool ids 10..19 of a case with Cfg.Lim = L.  10+11, 10+13, 10+15 total L exactly; 12 + one of 11/13/15
@@ -136,6 +147,9 @@ func fillFast(b []byte, x uint64) {
 // number p starts) instead of as early as possible (right after act number p-1 has returned) — the same point for
 // the model, two points of the code.  p >= the number of acts: right after the step.
 // N (arrive only): N > 1 = the transactions Tx, Tx+1, ..., Tx+N-1 arrive, in this order.
+// T = hsub | dsub (Cfg.Pend > 0): the DA layer has accepted the headers / the data up to height (store height - K)
+// (what HeaderSubmissionLoop / DataSubmissionLoop do to the producer: setLastSubmitted{Header,Data}Height on the running
+// manager); the height is resolved when the item runs and kept in N.
 type Item struct {
 	T     string `json:"t"`
 	Tx    int    `json:"tx,omitempty"` // arrive: pool id (>= 1)
@@ -183,7 +197,16 @@ func (c *countds) bump() { c.mu.Lock(); c.attempts++; c.mu.Unlock() }
 // the queue's writes are made under the queue's mutex (queue.go AddBatch / Next): no reap can run there
 func underQueueLock(k ds.Key) bool { return strings.HasPrefix(k.String(), "/batches/") }
 
+// the two DA watermarks (pending_base.go setLastSubmittedHeight; numWaitingData steps the data watermark over Data
+// without transactions): bookkeeping of the submission side, not an act of the model's produce step
+func daMark(k ds.Key) bool {
+	return strings.HasSuffix(k.String(), "/m/"+block.LastSubmittedDataHeightKey) || strings.HasSuffix(k.String(), "/m/"+store.LastSubmittedHeaderHeightKey)
+}
+
 func (c *countds) Put(ctx context.Context, k ds.Key, v []byte) error {
+	if daMark(k) {
+		return c.Batching.Put(ctx, k, v)
+	}
 	if c.w != nil && !underQueueLock(k) {
 		c.w.midPre()
 	}
@@ -564,7 +587,7 @@ func (w *World) boot() (*proc, error) {
 	cfg := config.DefaultConfig
 	cfg.RootDir = w.RootDir
 	cfg.Node.Aggregator = true
-	cfg.Node.MaxPendingHeadersAndData = 0
+	cfg.Node.MaxPendingHeadersAndData = uint64(w.Cfg.Pend)
 	cfg.Node.BlockTime.Duration = time.Second
 	m, err := block.NewManager(w.ctx, w.Signer, cfg, w.Gen, store.New(w.mainKV), w.mem, cs, nil, logger,
 		nil, nil, &bcast[*types.SignedHeader]{}, &bcast[*types.Data]{}, block.NopMetrics(), 1, 1, block.DefaultManagerOptions())
@@ -594,6 +617,7 @@ type Obs struct {
 	Res    string  // arrived boot-ok boot-fail reaped committed skipped e-time e-store e-validate e-other not-running crashed panic
 	Writes []Shape // the writes that reached the datastore; a write-fault item: plus, at its place, the failed attempt (Failed)
 	ErrTxt string
+	Cause  string // a refused produce: which half of the back-pressure test held (read from the real manager before the step)
 }
 
 func (w *World) shapeOf(wr crashds.Write) Shape {
@@ -645,6 +669,8 @@ func (w *World) shapeOf(wr crashds.Write) Shape {
 		return Shape{K: "state", N: s.LastBlockHeight}
 	case p.Key == "/0/m/l":
 		return Shape{K: "meta"}
+	case !p.Del && daMark(ds.NewKey(p.Key)):
+		return Shape{K: "damark"}
 	case strings.HasPrefix(p.Key, "/0/") && len(p.Key) == 3+64:
 		if id, ok := w.hashID[p.Key[3:]]; ok && bytes.Equal(p.Value, []byte{1}) {
 			return Shape{K: "seen", Tx: id}
@@ -680,6 +706,17 @@ func (w *World) Run(idx int, it Item) (obs Obs) {
 		w.mem.txs = append(w.mem.txs, it.Tx)
 		for i := 1; i < it.N; i++ {
 			w.mem.txs = append(w.mem.txs, it.Tx+i)
+		}
+		return Obs{Res: "arrived"}
+	}
+	if it.T == "hsub" || it.T == "dsub" {
+		if w.nd == nil {
+			return Obs{Res: "not-running"}
+		}
+		if it.T == "hsub" {
+			w.nd.m.VerifC11SetLastSubmittedHeaderHeight(w.ctx, uint64(it.N))
+		} else {
+			w.nd.m.VerifC11SetLastSubmittedDataHeight(w.ctx, uint64(it.N))
 		}
 		return Obs{Res: "arrived"}
 	}
@@ -748,6 +785,10 @@ func (w *World) Run(idx int, it Item) (obs Obs) {
 		if it.Mid > 0 {
 			w.midActive, w.midP, w.midLate, w.midCount, w.midFired = true, it.Mid, it.E, 0, false
 		}
+		cause := "data-backlog-at-limit(headers-below)"
+		if w.Cfg.Pend > 0 && w.nd.m.VerifNumPendingHeaders() >= uint64(w.Cfg.Pend) {
+			cause = "header-backlog-at-limit"
+		}
 		err := w.nd.m.VerifPublishBlock(w.ctx)
 		w.mem.failNext = false
 		if it.Mid > 0 {
@@ -761,6 +802,8 @@ func (w *World) Run(idx int, it Item) (obs Obs) {
 		switch {
 		case err == nil && after == before+1:
 			obs.Res = "committed"
+		case err == nil && after == before && !w.handedSet && w.mem.execs == execsBefore && w.Cfg.Pend > 0:
+			obs.Res, obs.Cause = "refused", cause // nil, nothing committed, neither the sequencer nor the executor was called
 		case err == nil && after == before:
 			obs.Res = "skipped"
 		case err != nil && strings.Contains(err.Error(), "timestamp is not monotonically increasing"):
@@ -822,6 +865,9 @@ func (w *World) Run(idx int, it Item) (obs Obs) {
 			obs.Writes = append(obs.Writes, *failed)
 		}
 		sh := w.shapeOf(wr)
+		if sh.K == "damark" {
+			continue
+		}
 		if sh.K == "qput" {
 			w.accepted = append(w.accepted, sh.Txs)
 		}
@@ -850,6 +896,9 @@ type Final struct {
 	Taken    []int   // all transactions GetTxs returned, in order
 	Released [][]int // the batches the sequencer handed out (queue record deleted, or its Delete made to fail), in order
 	Up       bool
+	HSub     uint64 // Cfg.Pend > 0: last submitted header height, numPendingHeaders, numWaitingData of the running manager
+	HPend    uint64
+	Wait     uint64
 	queued   int // records under /batches that the running process still holds in its in-memory queue
 }
 
@@ -898,6 +947,9 @@ func (w *World) Final() Final {
 		f.Released = append(f.Released, r.txs)
 	}
 	f.Up = w.nd != nil
+	if w.Cfg.Pend > 0 && w.nd != nil {
+		f.HSub, f.HPend = w.nd.m.VerifLastSubmittedHeaderHeight(), w.nd.m.VerifNumPendingHeaders()
+	}
 	return f
 }
 
@@ -1127,6 +1179,13 @@ func runCase(seed int64, c int, cfg Cfg, hist []Item) (*caseRun, error) {
 	}
 	cr := &caseRun{w: w}
 	do := func(it Item) {
+		if it.T == "hsub" || it.T == "dsub" { // resolve "store height - K" now
+			th, _ := w.Store().Height(w.ctx)
+			it.N = 0
+			if int(th) > it.K {
+				it.N = int(th) - it.K
+			}
+		}
 		cr.obs = append(cr.obs, w.Run(len(cr.hist), it))
 		cr.hist = append(cr.hist, it)
 	}
@@ -1146,6 +1205,10 @@ func runCase(seed int64, c int, cfg Cfg, hist []Item) (*caseRun, error) {
 	q, confirmed := w.quiet(), false
 	for i := 0; i < limit && !(q && confirmed); i++ {
 		wasQuiet, nrel := q, len(w.released)
+		if cfg.Pend > 0 { // the DA layer accepts everything: no back-pressure during the drain
+			do(Item{T: "hsub"})
+			do(Item{T: "dsub"})
+		}
 		do(Item{T: "produce", Ts: w.maxTs})
 		confirmed = wasQuiet && w.handedSet && len(w.handed) == 0 && len(w.released) == nrel
 		if cr.obs[len(cr.obs)-1].Res == "e-validate" {
@@ -1155,6 +1218,9 @@ func runCase(seed int64, c int, cfg Cfg, hist []Item) (*caseRun, error) {
 		q = w.quiet()
 	}
 	cr.fin = w.Final()
+	if cfg.Pend > 0 && w.nd != nil {
+		cr.fin.Wait = w.nd.m.VerifC11NumWaitingData(w.ctx)
+	}
 	w.judge(cr.fin, q && confirmed)
 	return cr, nil
 }
@@ -1231,6 +1297,10 @@ func batchesCoq(bs [][]int) string {
 
 func itemCoq(it Item) string {
 	switch it.T {
+	case "hsub":
+		return fmt.Sprintf("LHdrSub %d", it.N)
+	case "dsub":
+		return fmt.Sprintf("LDataSub %d", it.N)
 	case "arrive":
 		return "IArrive " + vgen.N(uint64(it.Tx))
 	case "boot":
@@ -1268,7 +1338,7 @@ func itemCoq(it Item) string {
 }
 
 var resCode = map[string]int{"arrived": 0, "boot-ok": 1, "reaped": 2, "committed": 3, "skipped": 4, "e-time": 5, "not-running": 6, "crashed": 7,
-	"e-store": 9, "e-validate": 10, "boot-fail": 11, "e-exec": 12}
+	"e-store": 9, "e-validate": 10, "boot-fail": 11, "e-exec": 12, "refused": 13}
 
 func shapeCoq(s Shape) string {
 	if s.Failed {
@@ -1326,6 +1396,37 @@ func (f Final) coq() string {
 }
 
 func caseCoq(cfg Cfg, cr *caseRun) string {
+	if cfg.Pend > 0 { // Check/ReaperLimitCheck.v
+		var items, obs []string
+		for i, it := range cr.hist {
+			n := 1
+			if it.T == "arrive" && it.N > 1 {
+				n = it.N
+			}
+			for k := 0; k < n; k++ {
+				switch it.T {
+				case "hsub", "dsub":
+					items = append(items, itemCoq(it))
+				case "arrive":
+					items = append(items, "LBase (IArrive "+vgen.N(uint64(it.Tx+k))+")")
+				default:
+					items = append(items, "LBase ("+itemCoq(it)+")")
+				}
+				o := cr.obs[i]
+				if o.Res == "not-running" && (it.T == "hsub" || it.T == "dsub") {
+					obs = append(obs, "(6%N, [])")
+				} else {
+					obs = append(obs, o.coq())
+				}
+			}
+		}
+		return fmt.Sprintf("CL (mk_lcase %d%%N %d%%N %s %s %s (%s) %d %d %d)", cfg.Pend, cfg.Max, vgen.Z(cfg.GOff), vgen.List(items), vgen.List(obs),
+			cr.fin.coq(), cr.fin.HSub, cr.fin.HPend, cr.fin.Wait)
+	}
+	return "CB (" + caseCoqBase(cfg, cr) + ")"
+}
+
+func caseCoqBase(cfg Cfg, cr *caseRun) string {
 	var items, obs segList
 	for i, it := range cr.hist {
 		if it.T == "arrive" && it.N > 1 { // N arrivals = N items of the model
@@ -1349,6 +1450,8 @@ func gen(r *mrand.Rand, tier string, c int) (Cfg, []Item) {
 		return genConc(r, tier)
 	case 7: // one hand-off of very many transactions against a queue that is almost full
 		return genCount(r, tier)
+	case 11: // the pending-submission limit: headers and data confirmed by the DA layer independently
+		return genLimit(r, tier)
 	}
 	if c%6 == 3 { // the size-boundary stream
 		if r.Intn(10) < 7 {
@@ -1569,6 +1672,79 @@ func genConc(r *mrand.Rand, tier string) (Cfg, []Item) {
 		h = append(h, p)
 		if r.Intn(100) < 5 {
 			h = append(h, Item{T: "boot"})
+		}
+	}
+	return cfg, h
+}
+
+// ---- the pending-submission limit -----------------------------------------------------------------------------------------
+
+// genLimit: MaxPendingHeadersAndData = 1..4.  Per case the DA layer is in one of the modes, switched now and then:
+// accepts both (after every block, with a lag of 0..2 heights), accepts headers and stalls on data, accepts data and
+// stalls on headers, stalls on both.  8..40 (thorough: ..90) rounds of: 0..2 transactions arrive, mostly a reap, a
+// produce step (plain; per-case 0/20% with a reap in its middle, 0/10% with a failing ExecuteTxs), then the DA layer's
+// confirmations for the mode.  4% restarts, per-case 0/8% crashes / write faults inside a reap or a start-up.  Then the
+// drain (the DA layer accepts everything before every produce).
+func genLimit(r *mrand.Rand, tier string) (Cfg, []Item) {
+	cfg := Cfg{Max: []int{0, 0, 1, 2, 3, 1000}[r.Intn(6)], GOff: int64(r.Intn(3)) * 2500, Pend: []int{1, 2, 2, 3, 3, 4}[r.Intn(6)]}
+	cur := cfg.GOff
+	tick := func() int64 { cur += int64(1 + r.Intn(3000)); return cur }
+	next := manyFirst
+	rounds := 8 + r.Intn(33)
+	if tier == "thorough" {
+		rounds = 8 + r.Intn(83)
+	}
+	midPct := []int{0, 20}[r.Intn(2)]
+	execPct := []int{0, 10}[r.Intn(2)]
+	badPct := []int{0, 0, 8}[r.Intn(3)]
+	// modes: 0 both accepted, 1 headers only (data stalls), 2 data only, 3 neither
+	mode := []int{0, 1, 1, 1, 2, 3}[r.Intn(6)]
+	h := []Item{{T: "boot"}}
+	for i := 0; i < rounds; i++ {
+		if r.Intn(100) < 12 {
+			mode = []int{0, 1, 1, 2, 3}[r.Intn(5)]
+		}
+		if n := []int{0, 1, 1, 1, 2}[r.Intn(5)]; n > 0 {
+			h = append(h, Item{T: "arrive", Tx: next, N: n})
+			next += n
+		}
+		if r.Intn(100) < 75 {
+			rp := Item{T: "reap"}
+			if y := r.Intn(100); y < badPct {
+				if r.Intn(2) == 0 {
+					rp.Crash, rp.K = true, r.Intn(3)
+				} else {
+					rp.Fault, rp.K = true, r.Intn(3)
+				}
+			}
+			h = append(h, rp)
+			if rp.Crash {
+				h = append(h, Item{T: "boot"})
+			}
+		}
+		p := Item{T: "produce", Ts: tick()}
+		switch y := r.Intn(100); {
+		case y < execPct:
+			p.X = true
+		case y < execPct+midPct:
+			p.Mid, p.E = midPoints[r.Intn(len(midPoints))], r.Intn(2) == 0
+		}
+		h = append(h, p)
+		lag := []int{0, 0, 0, 1, 2}[r.Intn(5)]
+		if mode == 0 || mode == 1 {
+			h = append(h, Item{T: "hsub", K: lag})
+		}
+		if mode == 0 || mode == 2 {
+			h = append(h, Item{T: "dsub", K: []int{0, 0, 0, 1, 2}[r.Intn(5)]})
+		}
+		if r.Intn(100) < 4 {
+			b := Item{T: "boot"}
+			if r.Intn(100) < badPct {
+				b.Crash, b.K = true, r.Intn(2)
+				h = append(h, b, Item{T: "boot"})
+			} else {
+				h = append(h, b)
+			}
 		}
 	}
 	return cfg, h
@@ -1908,7 +2084,7 @@ func TestVerif(t *testing.T) {
 			}
 		}
 		if j.gen {
-			res.Count("stream:" + map[int]string{1: "backlog-restarts", 5: "concurrent-reaps-and-failing-executions", 7: "count-boundary", 3: "size-boundary", 9: "size-boundary"}[rp.Case%12])
+			res.Count("stream:" + map[int]string{1: "backlog-restarts", 5: "concurrent-reaps-and-failing-executions", 7: "count-boundary", 3: "size-boundary", 9: "size-boundary", 11: "pending-limit"}[rp.Case%12])
 		}
 		// coverage of the new classes, measured on what the real code did
 		waitingNow, releasedSoFar := 0, 0
@@ -1954,6 +2130,12 @@ func TestVerif(t *testing.T) {
 			}
 			if it.T == "produce" && it.X {
 				res.Count(fmt.Sprintf("exec-fail:%s:batch-in-hand=%v", o.Res, ndel > 0))
+			}
+			if it.T == "produce" && o.Res == "refused" {
+				res.Count(fmt.Sprintf("pending-limit:refused:%s:non-empty-batch-waiting=%v", o.Cause, waitingNow > 0))
+			}
+			if it.T == "produce" && rp.Cfg.Pend > 0 && ndel > 0 {
+				res.Count("pending-limit:produce-took-a-batch:" + o.Res)
 			}
 			if it.T == "produce" && it.Mid > 0 && o.Res != "not-running" {
 				p := it.Mid
@@ -2073,11 +2255,11 @@ func TestVerif(t *testing.T) {
 		cr.w.Close()
 	}
 	res.Distinct = len(distinct)
-	res.Rule = "streams by case index mod 12: 1 = restarts while batches wait (2..4 lives of 1..4 hand-offs of 1..3 fresh transactions, fewer produces than waiting batches, then clean restart 55% / crash in reap, produce or start-up + restart 30% / nothing; bounds none,1000,5,4,3), 5 = concurrency (6..30 rounds of arrivals, optional reap, a produce that has a complete reap in its middle after p = 1..8 of its acts (p = 1, right after the sequencer's answer, a third of the time; early or late at that point) at a per-case rate of 35/60%, or whose ExecuteTxs call fails at 0/12%; bounds none,1,1,2,3,1000), 7 = count boundary (queue bound 2..5 or none filled to 1..2 free slots by small hand-offs, then ONE hand-off of L-1, L, L+1, 2L-1, 2L, 2L+1, 2.5L, 3L or 3L+1 transactions for L from {16,64,100,128,256,500,512,1000,1024}, then 3..8 produce / reap / restart / further-burst steps), 3 and 9 = size boundary (below); every other index = the generic mix, in which a quarter of the cases let 10% of the plain produces fail at ExecuteTxs and half of the cases give 10/25% of them a reap in the middle.  Corpus: + exec-failure-and-concurrent-reap-at-every-point, hand-off-of-1100-against-an-almost-full-queue.  Oracle: + every accepted hand-off (durable record) is released in acceptance order, a second time only after a failed record Delete; a batch dropped by a step that died AFTER calling ExecuteTxs is not attributed to the listed crash window.  GENERIC MIX: queue bound from {1,1,2,3,unlimited,1000}; optional first boot; 4..40 (quick) / 4..94 (thorough) items: 34% a transaction arrives (fresh bytes, or with a per-case probability of 0/5/25% bytes that arrived before; pool of 9 incl. the empty and a 20 kB transaction), 26% reap, 34% produce (clock +1..3000 ms, 8% equal, in a quarter of the cases 8% stepping back), 6% reboot; per-case crash rate 0/0/6/14% of the boots, reaps and produces, dying after k = 0..2 / 0..4 / 0..7 of their datastore writes (produce: with or without the ExecuteTxs call that follows the last durable write); per-case write-fault rate 0/0/0/12/24% of the remaining boots, reaps and produces: write attempt k = 0..1 / 0..4 / 0..6 (produce: early writes more often) returns an error once, the process lives on; corpus: a fault at every write of a batch-taking produce, of an empty produce, of a pending-block produce, of a hand-off and of a start-up; then the drain (boot if down, produce + reap rounds until nothing is in flight AND a produce on the quiet node has handed out nothing, restart of a node that refuses to produce with a validation error); size-boundary stream = every generated case with index = 3 mod 6 + corpus size-boundary-hand-offs-then-restart: the pool also holds 10 big transactions sized around a limit L from {1 500 000 (5/9), 2^20, 10^6, 2*10^6, 64*64*482} (L/3, L/3+-1, 3 x (L - L/3), L/15, L/2, L/2+7, L+1 bytes); 70% structured: boot, a block, 1..3 rounds of ONE hand-off totalling L-1 / L / L+1 (60%, often plus one or two small transactions anywhere in it), the pair plus a third big one (20%), big extras only (10%), a small control batch (10%), 30% a second small hand-off behind it, the produce that takes it (6% dying after k = 0..7 writes, 6% write fault), then 45% clean restart / 12% the next produce dies / 7% a start-up dies / 6% reap + restart / 30% nothing, then one or two more produces; 30%: the generic mix with the 19 pool ids arriving in a random order; non-trivial = at least one hand-off and one non-empty committed block; distinct = distinct (configuration, history)"
+	res.Rule = "streams by case index mod 12: 1 = restarts while batches wait (2..4 lives of 1..4 hand-offs of 1..3 fresh transactions, fewer produces than waiting batches, then clean restart 55% / crash in reap, produce or start-up + restart 30% / nothing; bounds none,1000,5,4,3), 5 = concurrency (6..30 rounds of arrivals, optional reap, a produce that has a complete reap in its middle after p = 1..8 of its acts (p = 1, right after the sequencer's answer, a third of the time; early or late at that point) at a per-case rate of 35/60%, or whose ExecuteTxs call fails at 0/12%; bounds none,1,1,2,3,1000), 7 = count boundary (queue bound 2..5 or none filled to 1..2 free slots by small hand-offs, then ONE hand-off of L-1, L, L+1, 2L-1, 2L, 2L+1, 2.5L, 3L or 3L+1 transactions for L from {16,64,100,128,256,500,512,1000,1024}, then 3..8 produce / reap / restart / further-burst steps), 3 and 9 = size boundary (below); 11 = pending limit (MaxPendingHeadersAndData 1..4; DA layer accepting both / headers only (data stalls) / data only / neither, switched with 12% per round; 8..40 rounds of arrivals, a reap (75%), a produce (per-case 0/20% with a reap inside, 0/10% with a failing ExecuteTxs), the confirmations of the mode with a lag of 0..2 heights; 4% restarts; per-case 0/8% crashes / write faults inside reaps and start-ups; the drain confirms everything before each produce; corpus data-stall-under-pending-limit); every other index = the generic mix, in which a quarter of the cases let 10% of the plain produces fail at ExecuteTxs and half of the cases give 10/25% of them a reap in the middle.  Corpus: + exec-failure-and-concurrent-reap-at-every-point, hand-off-of-1100-against-an-almost-full-queue.  Oracle: + every accepted hand-off (durable record) is released in acceptance order, a second time only after a failed record Delete; a batch dropped by a step that died AFTER calling ExecuteTxs is not attributed to the listed crash window.  GENERIC MIX: queue bound from {1,1,2,3,unlimited,1000}; optional first boot; 4..40 (quick) / 4..94 (thorough) items: 34% a transaction arrives (fresh bytes, or with a per-case probability of 0/5/25% bytes that arrived before; pool of 9 incl. the empty and a 20 kB transaction), 26% reap, 34% produce (clock +1..3000 ms, 8% equal, in a quarter of the cases 8% stepping back), 6% reboot; per-case crash rate 0/0/6/14% of the boots, reaps and produces, dying after k = 0..2 / 0..4 / 0..7 of their datastore writes (produce: with or without the ExecuteTxs call that follows the last durable write); per-case write-fault rate 0/0/0/12/24% of the remaining boots, reaps and produces: write attempt k = 0..1 / 0..4 / 0..6 (produce: early writes more often) returns an error once, the process lives on; corpus: a fault at every write of a batch-taking produce, of an empty produce, of a pending-block produce, of a hand-off and of a start-up; then the drain (boot if down, produce + reap rounds until nothing is in flight AND a produce on the quiet node has handed out nothing, restart of a node that refuses to produce with a validation error); size-boundary stream = every generated case with index = 3 mod 6 + corpus size-boundary-hand-offs-then-restart: the pool also holds 10 big transactions sized around a limit L from {1 500 000 (5/9), 2^20, 10^6, 2*10^6, 64*64*482} (L/3, L/3+-1, 3 x (L - L/3), L/15, L/2, L/2+7, L+1 bytes); 70% structured: boot, a block, 1..3 rounds of ONE hand-off totalling L-1 / L / L+1 (60%, often plus one or two small transactions anywhere in it), the pair plus a third big one (20%), big extras only (10%), a small control batch (10%), 30% a second small hand-off behind it, the produce that takes it (6% dying after k = 0..7 writes, 6% write fault), then 45% clean restart / 12% the next produce dies / 7% a start-up dies / 6% reap + restart / 30% nothing, then one or two more produces; 30%: the generic mix with the 19 pool ids arriving in a random order; non-trivial = at least one hand-off and one non-empty committed block; distinct = distinct (configuration, history)"
 	res.Cases = len(cases)
-	header := "From Coq Require Import NArith ZArith List Bool.\nFrom Verif Require Import Model.Reaper Check.ReaperCheck."
+	header := "From Coq Require Import NArith ZArith List Bool.\nFrom Verif Require Import Model.Reaper Model.ReaperLimit Check.ReaperCheck Check.ReaperLimitCheck."
 	path := filepath.Join(e.Out, "cases_C11.v")
-	if err := vgen.WriteCases(path, header, nil, "rcase", cases, "mismatches"); err != nil {
+	if err := vgen.WriteCases(path, header, nil, "anycase", cases, "mismatches_any"); err != nil {
 		t.Fatal(err)
 	}
 	res.CaseFiles = []string{path}
